@@ -30,6 +30,10 @@ impl<'a> Paseto<'a, V2, Local> {
         //get footer
 
         let decoded_payload = Self::parse_raw_token(token, footer, &V2::default(), &Local::default())?;
+        //the payload must at least hold the nonce and the poly1305 tag
+        if decoded_payload.len() < 24 + 16 {
+            return Err(PasetoError::IncorrectSize);
+        }
         let (nonce, ciphertext) = decoded_payload.split_at(24);
 
         //pack preauth
